@@ -694,7 +694,7 @@ func Check() *engine.Check {
 			"(catalogue default, catalogue true, rule-level true over catalogue default, rule-level false over catalogue true; for chains <= 2 also " +
 			"a rule-level override of another property over catalogue true / default, which must inherit the catalogue value) x 19 values of the one " +
 			"Authorization header (none; Basic valid / wrong password / wrong user / not base64 / no colon / scheme only; Bearer JWT valid / bad " +
-			"signature / expired / wrong audience / unknown kid / alg none / three garbage segments; Bearer opaque active / inactive / wrong audience; " +
+			"signature / expired / wrong audience / unknown kid / HS256 MAC'ed with the published key set / alg none / three garbage segments; Bearer opaque active / inactive / wrong audience; " +
 			"Bearer scheme only; Digest) x 5 X-Session values when generic is in the chain (none, valid, unknown->401, inactive, answer without subject) " +
 			"x {ok, 503, transport error} for every remote (JWKS, identity, introspection endpoint) of the chain. Real authenticators from the real " +
 			"mechanism factory, chained in a real rule (real rule factory, repository, executor); subject id echoed by a header finalizer. Chains of " +
